@@ -342,11 +342,30 @@ noncomputable def dofFl (U : Unpaired (RR fl)) : ℝ :=
   (Unpaired.effectiveDof (⟨s2nFl U.a⟩ : RR fl) ⟨s2nFl U.b⟩ (Scalar.ofNat U.a.count)
     (Scalar.ofNat U.b.count)).val
 
+/-- the degrees of freedom handed on: the computed value `dofFl`, not below the computed bound
+    `fl (min (fl na) (fl nb) − 1)` (the crate's lower clamp) -/
+noncomputable def dofClFl (U : Unpaired (RR fl)) : ℝ :=
+  (Unpaired.clampDof (⟨dofFl U⟩ : RR fl) (Scalar.ofNat U.a.count) (Scalar.ofNat U.b.count)).val
+
+theorem dofClFl_eq (U : Unpaired (RR fl)) :
+    dofClFl U = max (dofFl U) (fl (min (fl U.a.count) (fl U.b.count) - 1)) := by
+  unfold dofClFl
+  rw [Unpaired.clampDof_val]
+  simp only [RR.ofNat_val]
+
+/-- the clamp is inactive as soon as the computed value reaches the computed bound -/
+theorem dofClFl_of_le (U : Unpaired (RR fl))
+    (h : fl (min (fl U.a.count) (fl U.b.count) - 1) ≤ dofFl U) : dofClFl U = dofFl U := by
+  rw [dofClFl_eq]; exact max_eq_left h
+
+theorem dofFl_le_dofClFl (U : Unpaired (RR fl)) : dofFl U ≤ dofClFl U := by
+  rw [dofClFl_eq]; exact le_max_left _ _
+
 /-- `Unpaired.ciPrep` at `RR fl`: both guards pass for counts `≥ 2` (no non-finite values at
-    `RR fl`) and the three statistics are `diffFl`, `seFl`, `dofFl` -/
+    `RR fl`) and the three statistics are `diffFl`, `seFl`, `dofClFl` -/
 theorem ciPrep_fl (U : Unpaired (RR fl)) (ha : 2 ≤ U.a.count) (hb : 2 ≤ U.b.count) :
     (Unpaired.ciPrep U : Outcome (Err (RR fl)) (Arith.Prep (RR fl))) =
-      .ok ⟨⟨diffFl U⟩, ⟨seFl U⟩, ⟨dofFl U⟩⟩ := by
+      .ok ⟨⟨diffFl U⟩, ⟨seFl U⟩, ⟨dofClFl U⟩⟩ := by
   have ha' : ¬ U.a.count < 2 := by omega
   have hb' : ¬ U.b.count < 2 := by omega
   unfold Unpaired.ciPrep
@@ -357,13 +376,13 @@ theorem ciPrep_fl (U : Unpaired (RR fl)) (ha : 2 ≤ U.a.count) (hb : 2 ≤ U.b.
 /-- `Unpaired.ciMean` at `RR fl` when the computed degrees of freedom are positive: the bounds
     are `fl (d̂ ∓ fl (c·sê))` with `c` the answer to the request at the computed dof -/
 theorem ciMean_fl (crit : Crit (RR fl)) (U : Unpaired (RR fl)) (conf : Confidence (RR fl))
-    (ha : 2 ≤ U.a.count) (hb : 2 ≤ U.b.count) (hd : 0 < dofFl U)
+    (ha : 2 ≤ U.a.count) (hb : 2 ≤ U.b.count) (hd : 0 < dofClFl U)
     (hp : probOk conf.quantile = true) :
     U.ciMean crit conf =
       intervalOfKind conf
-        (⟨fl (diffFl U - fl ((crit (critReq conf (⟨dofFl U⟩ : RR fl))).val * seFl U))⟩ : RR fl)
-        ⟨fl (diffFl U + fl ((crit (critReq conf (⟨dofFl U⟩ : RR fl))).val * seFl U))⟩ := by
-  have hd' : gt (⟨dofFl U⟩ : RR fl) (zero : RR fl) = true := by simpa using hd
+        (⟨fl (diffFl U - fl ((crit (critReq conf (⟨dofClFl U⟩ : RR fl))).val * seFl U))⟩ : RR fl)
+        ⟨fl (diffFl U + fl ((crit (critReq conf (⟨dofClFl U⟩ : RR fl))).val * seFl U))⟩ := by
+  have hd' : gt (⟨dofClFl U⟩ : RR fl) (zero : RR fl) = true := by simpa using hd
   unfold Unpaired.ciMean
   rw [ciPrep_fl U ha hb, Outcome.bind_ok]
   simp only []
@@ -373,14 +392,14 @@ theorem ciMean_fl (crit : Crit (RR fl)) (U : Unpaired (RR fl)) (conf : Confidenc
 /-- computed degrees of freedom below the population limit and not positive:
     `StudentsT::new(0, 1, dof).unwrap()` panics -/
 theorem ciMean_fl_tpanic (crit : Crit (RR fl)) (U : Unpaired (RR fl)) (conf : Confidence (RR fl))
-    (ha : 2 ≤ U.a.count) (hb : 2 ≤ U.b.count) (hd : dofFl U ≤ 0)
-    (hlim : dofFl U < fl 100000) :
+    (ha : 2 ≤ U.a.count) (hb : 2 ≤ U.b.count) (hd : dofClFl U ≤ 0)
+    (hlim : dofClFl U < fl 100000) :
     U.ciMean crit conf = .panic "t_value" := by
-  have h1 : lt (⟨dofFl U⟩ : RR fl) (populationLimit : RR fl) = true := by
+  have h1 : lt (⟨dofClFl U⟩ : RR fl) (populationLimit : RR fl) = true := by
     simp only [populationLimit, RR.lt_iff, RR.ofNat_val]
     push_cast
     exact hlim
-  have h2 : gt (⟨dofFl U⟩ : RR fl) (zero : RR fl) = false := by
+  have h2 : gt (⟨dofClFl U⟩ : RR fl) (zero : RR fl) = false := by
     rw [Bool.eq_false_iff, Ne, RR.gt_iff]
     simpa using hd
   unfold Unpaired.ciMean
@@ -1302,10 +1321,10 @@ theorem dofFl_both_zero (hfl : ∀ x, |fl x - x| ≤ u * |x|) (hu1 : u < 1) (U :
 /-- an inadmissible probability makes `Unpaired.ciMean` panic inside `inverse_cdf` (computed
     degrees of freedom positive) -/
 theorem ciMean_fl_ppanic (crit : Crit (RR fl)) (U : Unpaired (RR fl)) (conf : Confidence (RR fl))
-    (ha : 2 ≤ U.a.count) (hb : 2 ≤ U.b.count) (hd : 0 < dofFl U)
+    (ha : 2 ≤ U.a.count) (hb : 2 ≤ U.b.count) (hd : 0 < dofClFl U)
     (hp : probOk conf.quantile = false) :
     U.ciMean crit conf = .panic "inverse_cdf" := by
-  have hd' : gt (⟨dofFl U⟩ : RR fl) (zero : RR fl) = true := by simpa using hd
+  have hd' : gt (⟨dofClFl U⟩ : RR fl) (zero : RR fl) = true := by simpa using hd
   unfold Unpaired.ciMean
   rw [ciPrep_fl U ha hb, Outcome.bind_ok]
   simp only []
@@ -1577,5 +1596,140 @@ theorem dof_error_abs (hfl : ∀ x, |fl x - x| ≤ u * |x|) (hu : 0 ≤ u) (as b
     rw [← e1] at hbound
     exact hbound
   · exact pos_of_tail hQ3 (by positivity) k3 hbound
+
+/-! ## the lower bound `fl (min (fl na) (fl nb) − 1)` of the degrees of freedom handed on -/
+
+theorem clampFl_le_dofClFl (U : Unpaired (RR fl)) :
+    fl (min (fl U.a.count) (fl U.b.count) - 1) ≤ dofClFl U := by
+  rw [dofClFl_eq]; exact le_max_right _ _
+
+theorem dofClFl_pos_of_dofFl_pos (U : Unpaired (RR fl)) (h : 0 < dofFl U) : 0 < dofClFl U :=
+  lt_of_lt_of_le h (dofFl_le_dofClFl U)
+
+/-- for `u < 1/2` a count `≥ 2` rounds to more than `1` -/
+theorem fl_count_gt_one (hfl : ∀ x, |fl x - x| ≤ u * |x|) (hu : u < 1 / 2) (n : ℕ) (hn : 2 ≤ n) :
+    1 < fl (n : ℝ) := by
+  have hN : (2 : ℝ) ≤ n := by exact_mod_cast hn
+  have h := hfl n
+  rw [abs_of_nonneg (by linarith : (0 : ℝ) ≤ n)] at h
+  have h1 := (abs_le.mp h).1
+  have h2 : u * n < 1 / 2 * n := mul_lt_mul_of_pos_right hu (by linarith)
+  linarith
+
+/-- **the computed lower bound is positive at every `fl` with `u < 1/2`** and counts `≥ 2` -/
+theorem clampFl_pos (hfl : ∀ x, |fl x - x| ≤ u * |x|) (hu : u < 1 / 2) (U : Unpaired (RR fl))
+    (hna : 2 ≤ U.a.count) (hnb : 2 ≤ U.b.count) :
+    0 < fl (min (fl U.a.count) (fl U.b.count) - 1) := by
+  apply fl_pos hfl (by linarith)
+  have := lt_min (fl_count_gt_one hfl hu _ hna) (fl_count_gt_one hfl hu _ hnb)
+  linarith
+
+/-- **the degrees of freedom handed on are positive at every `fl` with `u < 1/2`** -/
+theorem dofClFl_pos (hfl : ∀ x, |fl x - x| ≤ u * |x|) (hu : u < 1 / 2) (U : Unpaired (RR fl))
+    (hna : 2 ≤ U.a.count) (hnb : 2 ≤ U.b.count) : 0 < dofClFl U :=
+  lt_of_lt_of_le (clampFl_pos hfl hu U hna hnb) (clampFl_le_dofClFl U)
+
+/-- `fl` exact on the two counts and on `min(na, nb) − 1`: the clamp is the exact one -/
+theorem dofClFl_exact (U : Unpaired (RR fl)) (ha : fl U.a.count = U.a.count)
+    (hb : fl U.b.count = U.b.count)
+    (hm : fl (min (U.a.count : ℝ) U.b.count - 1) = min (U.a.count : ℝ) U.b.count - 1) :
+    dofClFl U = max (dofFl U) (min (U.a.count : ℝ) U.b.count - 1) := by
+  rw [dofClFl_eq, ha, hb, hm]
+
+/-- … and then the degrees of freedom handed on are at least `min(na, nb) − 1 ≥ 1`, whatever
+    the computed `dofFl` (no hypothesis on the error of `fl`) -/
+theorem dofClFl_ge_of_exact (U : Unpaired (RR fl)) (hna : 2 ≤ U.a.count) (hnb : 2 ≤ U.b.count)
+    (ha : fl U.a.count = U.a.count) (hb : fl U.b.count = U.b.count)
+    (hm : fl (min (U.a.count : ℝ) U.b.count - 1) = min (U.a.count : ℝ) U.b.count - 1) :
+    min (U.a.count : ℝ) U.b.count - 1 ≤ dofClFl U ∧ 1 ≤ dofClFl U := by
+  have hNa : (2 : ℝ) ≤ U.a.count := by exact_mod_cast hna
+  have hNb : (2 : ℝ) ≤ U.b.count := by exact_mod_cast hnb
+  have h : min (U.a.count : ℝ) U.b.count - 1 ≤ dofClFl U := by
+    rw [dofClFl_exact U ha hb hm]; exact le_max_right _ _
+  have := le_min hNa hNb
+  exact ⟨h, by linarith⟩
+
+/-- `max` is 1-Lipschitz: the degrees of freedom handed on against the exact clamped value -/
+theorem dofClFl_sub_clampedDof_le (U : Unpaired (RR fl)) (A B : ℝ) :
+    |dofClFl U - clampedDof A B U.a.count U.b.count| ≤
+      max |dofFl U - welchDof A B U.a.count U.b.count|
+        |fl (min (fl U.a.count) (fl U.b.count) - 1) - (min (U.a.count : ℝ) U.b.count - 1)| := by
+  rw [dofClFl_eq, clampedDof]
+  exact abs_max_sub_max_le_max _ _ _ _
+
+/-- two real samples, `fl` exact on the natural numbers up to `na + nb`: the computed lower
+    bound is the exact `min(na, nb) − 1` -/
+theorem clampFl_lists (as bs : List ℝ) (hna : 2 ≤ as.length) (hnb : 2 ≤ bs.length)
+    (hnat : ∀ m : ℕ, m ≤ as.length + bs.length → fl m = m) :
+    fl (min (fl (ofLists fl as bs).a.count) (fl (ofLists fl as bs).b.count) - 1) =
+      min (as.length : ℝ) bs.length - 1 := by
+  rw [ofLists_a_count, ofLists_b_count, hnat _ (by omega), hnat _ (by omega)]
+  have h1 : 1 ≤ min as.length bs.length := by
+    rw [Nat.le_min]; omega
+  have e : min (as.length : ℝ) bs.length - 1 = ((min as.length bs.length - 1 : ℕ) : ℝ) := by
+    rw [Nat.cast_sub h1, Nat.cast_min]; simp
+  rw [e]
+  apply hnat
+  have := Nat.min_le_left as.length bs.length
+  omega
+
+/-- two real samples: the degrees of freedom handed on are `max (dofFl) (min(na, nb) − 1) ≥ 1` -/
+theorem dofClFl_lists (as bs : List ℝ) (hna : 2 ≤ as.length) (hnb : 2 ≤ bs.length)
+    (hnat : ∀ m : ℕ, m ≤ as.length + bs.length → fl m = m) :
+    dofClFl (ofLists fl as bs) =
+      max (dofFl (ofLists fl as bs)) (min (as.length : ℝ) bs.length - 1) ∧
+    min (as.length : ℝ) bs.length - 1 ≤ dofClFl (ofLists fl as bs) ∧
+    1 ≤ dofClFl (ofLists fl as bs) := by
+  have hNa : (2 : ℝ) ≤ as.length := by exact_mod_cast hna
+  have hNb : (2 : ℝ) ≤ bs.length := by exact_mod_cast hnb
+  have e : dofClFl (ofLists fl as bs) =
+      max (dofFl (ofLists fl as bs)) (min (as.length : ℝ) bs.length - 1) := by
+    rw [dofClFl_eq, clampFl_lists as bs hna hnb hnat]
+  have h : min (as.length : ℝ) bs.length - 1 ≤ dofClFl (ofLists fl as bs) := by
+    rw [e]; exact le_max_right _ _
+  have := le_min hNa hNb
+  exact ⟨e, h, by linarith⟩
+
+/-- two real samples: the error of the degrees of freedom handed on against the exact clamped
+    value is at most that of the unclamped computed value against the exact `ν` -/
+theorem dofClFl_error_lists (as bs : List ℝ) (hna : 2 ≤ as.length) (hnb : 2 ≤ bs.length)
+    (hnat : ∀ m : ℕ, m ≤ as.length + bs.length → fl m = m) :
+    |dofClFl (ofLists fl as bs) - clampedDof (welchA as) (welchA bs) as.length bs.length| ≤
+      |dofFl (ofLists fl as bs) - welchNu as bs| := by
+  have h := dofClFl_sub_clampedDof_le (ofLists fl as bs) (welchA as) (welchA bs)
+  rw [clampFl_lists as bs hna hnb hnat, ofLists_a_count, ofLists_b_count, sub_self, abs_zero,
+    max_eq_left (abs_nonneg _)] at h
+  exact h
+
+/-- … and against `ν` itself when not both exact variance terms vanish (the exact clamp is then
+    inactive, C04 `unpaired_dof_clamped`) -/
+theorem dofClFl_error_lists_nu (as bs : List ℝ) (hna : 2 ≤ as.length) (hnb : 2 ≤ bs.length)
+    (hnat : ∀ m : ℕ, m ≤ as.length + bs.length → fl m = m)
+    (hAB : 0 < welchA as + welchA bs) :
+    |dofClFl (ofLists fl as bs) - welchNu as bs| ≤ |dofFl (ofLists fl as bs) - welchNu as bs| := by
+  have h := dofClFl_error_lists as bs hna hnb hnat
+  rw [clampedDof_eq _ _ _ _ (by exact_mod_cast hna) (by exact_mod_cast hnb)
+    (welchA_nonneg as (by omega)) (welchA_nonneg bs (by omega)) hAB] at h
+  exact h
+
+/-- both computed standard deviations zero: the computed `sa²/na + sb²/nb` and the computed
+    standard error are zero -/
+theorem seFl_both_zero (hfl : ∀ x, |fl x - x| ≤ u * |x|) (U : Unpaired (RR fl))
+    (ha : U.a.stdDev.val = 0) (hb : U.b.stdDev.val = 0) : sumS2nFl U = 0 ∧ seFl U = 0 := by
+  have e : sumS2nFl U = 0 := by
+    unfold sumS2nFl
+    rw [s2nFl_zero hfl U.a ha, s2nFl_zero hfl U.b hb, add_zero, fl_zero hfl]
+  refine ⟨e, ?_⟩
+  unfold seFl
+  rw [e, Real.sqrt_zero, fl_zero hfl]
+
+/-- both computed standard deviations zero: the degrees of freedom handed on are the computed
+    lower bound -/
+theorem dofClFl_both_zero (hfl : ∀ x, |fl x - x| ≤ u * |x|) (hu1 : u < 1) (U : Unpaired (RR fl))
+    (ha : U.a.stdDev.val = 0) (hb : U.b.stdDev.val = 0)
+    (hpos : 0 ≤ fl (min (fl U.a.count) (fl U.b.count) - 1)) :
+    dofClFl U = fl (min (fl U.a.count) (fl U.b.count) - 1) := by
+  rw [dofClFl_eq]
+  exact max_eq_right (le_trans (dofFl_both_zero hfl hu1 U ha hb).2.le hpos)
 
 end StatsCI.UnpairedRound
